@@ -143,8 +143,15 @@ class Srv6SidInformation:
 
     def json(self, compact: bool | None = None) -> str:
         s: str = '{{ "sid": "{}", "flags": 0, "endpoint_behavior": {}'.format(str(self.sid), self.behavior)
-        content: str = ', '.join(subsubtlv.json() for subsubtlv in self.subsubtlvs)
+        # a sub-sub-TLV we know renders as a member ('"structure": {...}'), one we do not as a
+        # whole object ('{"type": 9, "raw": ".."}'): spliced in as a member that one made the
+        # event a line no JSON parser accepts, so the unknown ones go in a list of their own
+        known = [_ for _ in self.subsubtlvs if not isinstance(_, GenericSrv6ServiceDataSubSubTlv)]
+        unknown = [_ for _ in self.subsubtlvs if isinstance(_, GenericSrv6ServiceDataSubSubTlv)]
+        content: str = ', '.join(subsubtlv.json() for subsubtlv in known)
         if content:
             s += ', {}'.format(content)
+        if unknown:
+            s += ', "sub-sub-tlvs": [ {} ]'.format(', '.join(subsubtlv.json() for subsubtlv in unknown))
         s += ' }'
         return s
